@@ -695,3 +695,8 @@ benign('C08', 'scaled columns collected first, conversion skips them by name', D
 # regressions of the fix: commit 7571392 (System.neighborlist(model=...))
 mutant('C03', 'regress-7571392 system passed on with a saved list', 'atomman/core/System.py', "        elif 'model' not in kwargs:\n            kwargs['system'] = self\n", "        else:\n            kwargs['system'] = self\n", 'NEIGHBORLIST')
 benign('C03', 'system entry point: model branch returns early', 'atomman/core/System.py', "        elif 'model' not in kwargs:\n            kwargs['system'] = self\n        return NeighborList(**kwargs)", "        if 'model' in kwargs:\n            return NeighborList(**kwargs)\n        return NeighborList(system=self, **kwargs)")
+
+# regressions of the fix: commit bec9910 (the cell is stored in angstrom by default)
+mutant('C10', 'regress-bec9910 System.model: cell stored without a unit by default', 'atomman/core/System.py', "              box_unit: Optional[str] = 'angstrom',", "              box_unit: Optional[str] = None,", 'SYSTEM-MODEL')
+mutant('C10', 'regress-bec9910 system_model writer: cell stored without a unit by default', 'atomman/dump/system_model/dump.py', "         box_unit: Optional[str] = 'angstrom',", "         box_unit: Optional[str] = None,", 'SYSTEM-MODEL')
+benign('C10', 'default unit of the cell filled in inside System.model', 'atomman/core/System.py', "        model['atomic-system']['box'] = self.box.model(length_unit=box_unit)['box']", "        model['atomic-system']['box'] = self.box.model(length_unit=box_unit)['box'] if box_unit is not None else self.box.model(length_unit=None)['box']")
